@@ -139,6 +139,22 @@ CLAIMED = {
             "Trusts vf/symx/sscalar.py, sympy expand, z3 nlsat; ThermalRelaxationError, QubitChannel and everything about "
             "default.mixed's evolution (PSD, trace, Kraus-sum simulation) is not covered.",
             "DESIGN.md 4 C28", "E2"),
+    "C45": ("proof",
+            "sidecar contracts over the label-sequence view on the real methods of pennylane/wires.py: label sequences of "
+            "SYMBOLIC length over an uninterpreted label sort, python sets as arrays label->Bool, linked by an axiomatic "
+            "finite-sequence theory (Dafny-prelude encoding, each axiom checked against the python list model on every run); "
+            "VCs from the function ASTs on every run, loop invariants for the accumulating loops and comprehensions; z3 "
+            "E-matching; counter-models replayed natively",
+            "_process, __init__, __contains__, __len__, __eq__ (with and without cached hashes), __hash__, index, indices, "
+            "__getitem__, contains_wires, toset/tolist/labels, map, subset (plain and periodic), the four named set operations "
+            "and their eight operator forms for Wires / tuple / set operands, __add__/__radd__ are proved for label sequences "
+            "of every length: results are duplicate-free, contain exactly the labels the set operation defines, keep the "
+            "stated order, and WireError is raised exactly for duplicates / missing labels. all_wires, shared_wires and "
+            "unique_wires are proved for lists of 1-3 Wires objects (size-bounded in the number of objects, unbounded in labels).",
+            "Trusts the pyvc encoder, the sequence axioms (transcription-checked, not proved), z3; labels are an abstract "
+            "hashable sort (string labels, numpy/jax inputs, select_random are outside); iteration order of python sets is "
+            "left unconstrained, so results built from sets are specified up to order.",
+            "DESIGN.md 4 C45", "E1"),
     "C61": ("proof",
             "contract on step/step_and_cost/apply_grad/compute_grad of the six gradient optimizers: outputs == documented "
             "update rule; real methods executed on sympy-backed symbolic scalars from an arbitrary accumulator state with an "
